@@ -637,7 +637,7 @@ func c03MarshalV(v mvt.Layers, gz bool) (data []byte, class string) {
 // c03MarshalAll: the value m0 (variant 0) marshalled twice, then three freshly built values with
 // other map insertion orders; every returned slice is kept.  det: all five agree.
 func c03MarshalAll(k *c03Keeper, ls []c03Layer, m0 mvt.Layers) (data []byte, class string, det bool) {
-	data, class = c03MarshalV(m0, false)
+	k.argUntouched("arg", "marshal", m0, func() { data, class = c03MarshalV(m0, false) })
 	k.keepBytes("m0", data)
 	det = true
 	d1, c1 := c03MarshalV(m0, false) // the same VALUE once more
@@ -676,10 +676,16 @@ func c03RunRT(in []string) string {
 	out += " ; U " + u
 	gzDet := true
 	gzLen := 0
+	var gz0 []byte
 	g := guard(func() string {
-		gz, c := c03MarshalV(m0, true)
+		var gz []byte
+		var c string
+		k.argUntouched("arg", "marshalgz", m0, func() { gz, c = c03MarshalV(m0, true) })
 		k.keepBytes("g0", gz)
 		gzLen = len(gz)
+		if c == "ok" {
+			gz0 = gz
+		}
 		if c != "ok" {
 			return "marshalgz-" + c
 		}
@@ -699,6 +705,13 @@ func c03RunRT(in []string) string {
 	}
 	if det && !gzDet {
 		out = strings.Replace(out, " ; D 1", " ; D g", 1)
+	}
+	// the same value marshalled from several goroutines at once
+	if !gzDet {
+		gz0 = nil
+	}
+	if det {
+		k.concurrent(m0, data, gz0)
 	}
 	// every result obtained above is still alive: further calls on other data, then look again
 	k.disturb(ls)
